@@ -33,6 +33,8 @@ from vlib import leanrun, qgates
 from vlib.driver import run_driver
 from vlib.proofs import build_and_audit, registry
 
+from props import C13_defs
+
 PROP = "C13"
 DRIVER = "DriverC13.lean"
 
@@ -108,7 +110,7 @@ def names_table(ctx, lab):
            "theorem C13_names_ok : tableOk table = true := by decide +kernel\n"
            "end QV.Gen.C13\n")
     leanrun.write_if_changed(leanrun.LEAN_DIR / "QV" / "Gen" / "C13_Ob0.lean", src)
-    leanrun.write_if_changed(leanrun.LEAN_DIR / "QV" / "Gen" / "C13_Ob.lean", "import QV.Gen.C13_Ob0\n")
+    leanrun.write_if_changed(leanrun.LEAN_DIR / "QV" / "Gen" / "C13_Ob.lean", "import QV.Gen.C13_Ob0\nimport QV.Gen.C13_Ob1\n")
     # python-side evaluation of the same predicate (decides whether the kernel obligation
     # can hold; a false row goes to the failing-input search below)
     bad = []
@@ -282,7 +284,7 @@ def search_gates(ctx, lab, bad_names):
                     ctx.fail(f"qasm:gate:{name}", f"QASM round trip of {name}{tuple(qs)}{tuple(map(float, ps))}: {prob}",
                              build_code(n, [gate_expr(name, qs, [float(p) for p in ps])]) + RT_CHECK,
                              expected="re-imports equal or export raises", observed=prob,
-                             broken=["C13_names_ok"] if name in bad_names else [])
+                             broken=(["C13_names_ok"] if name in bad_names else []))
     # gates built through controlled_by that default to a labelled class, and ones that do not
     for base, ctrl in [("X", (1,)), ("X", (1, 2)), ("RX", (3,)), ("U3", (0,)), ("Z", (3,)), ("H", (1,)), ("SWAP", (0,)), ("RY", (0, 1))]:
         info = qgates.gate_infos()[base]
@@ -1689,10 +1691,16 @@ def run(ctx):
     MODULES, THEOREMS = registry(PROP)
     lab = labelled_classes()
     bad_names = names_table(ctx, lab)
+    bad_args = C13_defs.args_table(ctx, lab)
     ok = build_and_audit(ctx, PROP, MODULES, THEOREMS, gen_obs=True)
     gen_ok = ok and not bad_names
     ctx.ob("C13_names_ok", gen_ok, "generated-kernel",
            "" if gen_ok else f"label does not resolve to its class / argument order differs for {bad_names}")
+    # operand order per class (traced rows, lean/QV/Gen/C13_Ob1.lean); a class whose row
+    # cannot pass is a failing input of the gate search below (broken=C13_args_ok)
+    ctx.ob("C13_args_ok", ok and not bad_args, "generated-kernel",
+           "" if ok and not bad_args else f"written operands are not the ones read back for {bad_args}")
+    bad_names = sorted(set(bad_names) | set(bad_args))
     ctx.theorems = THEOREMS
     corr_gate_name(ctx, lab)
     ctx.notes.append("QASM: all labelled classes x boundary parameters x qubit orders; random register layouts; programs vs independent evaluator; "
@@ -1705,6 +1713,7 @@ def run(ctx):
     corr_and_search_layouts(ctx, lab)
     search_register_names(ctx)
     corr_reader_programs(ctx)
+    C13_defs.run_suites(ctx)
     search_programs(ctx)
     corr_dict(ctx)
     search_dicts(ctx)
